@@ -143,6 +143,14 @@ def infeasible_edges(cfg, assume):
 
         def atomize(e, fixed=fixed):
             v = assume(e)
+            if v is None and isinstance(e, ast.Name) and getattr(cfg, 'func', None) is not None:
+                # a flag that is a single-assignment local stands for its value
+                e2 = astq.resolve_local(cfg.func, e)
+                if e2 is not e:
+                    import copy
+                    from .normalize import bool_ctx
+                    e2 = bool_ctx(copy.deepcopy(e2))
+                    v = assume(e2)
             if v is None:
                 from .cfg import static_truth, POSIX_CONSTS
                 if not isinstance(e, ast.Constant):
@@ -302,4 +310,19 @@ def none_test(e, x):
         for p, q in ((a, b), (b, a)):
             if astq.norm_text(p) == x and isinstance(q, ast.Constant) and q.value is None:
                 return isinstance(e.ops[0], (ast.Is, ast.Eq))
+    return None
+
+
+def positive_test(e, x=None):
+    """Truth value of `e` when `x > 0` holds, for comparisons of x with 0/1
+    (x > 0, x >= 1, x <= 0, x < 1, x != 0 ...); x = None: any plain name."""
+    if isinstance(e, ast.Compare) and len(e.ops) == 1:
+        if (x is None and isinstance(e.left, ast.Name)) or \
+                (x is not None and astq.norm_text(e.left) == x):
+            k = astq.const_value(e.comparators[0], None)
+            op = type(e.ops[0])
+            if (op, k) in ((ast.Gt, 0), (ast.GtE, 1)):
+                return True
+            if (op, k) in ((ast.LtE, 0), (ast.Lt, 1)):
+                return False
     return None
